@@ -70,7 +70,7 @@ var (
 )
 
 func prelude() *goja.Program {
-	preludeOnce.Do(func() { preludePrg = goja.MustCompile("c06-prelude.js", preludeSrc, false) })
+	preludeOnce.Do(func() { preludePrg = goja.MustCompile("c06-prelude.js", preludeSrc+ssHelpers, false) })
 	return preludePrg
 }
 
@@ -969,6 +969,7 @@ func execute(root *node, st *core.Stats, salt uint64, noExclude bool) (out outco
 	e.eval(root)
 	e.ordering(root)
 	e.firstTouch()
+	e.searchStress()
 	if why := gj.IdleProblem(e.r, false); why != "" {
 		out.viol = &violation{monitor: "vm-not-idle", detail: why, node: root}
 	}
